@@ -2,3 +2,4 @@ pub mod inflight;
 pub mod window;
 pub mod selection;
 pub mod stallguard;
+pub mod weakfilter;
